@@ -188,6 +188,8 @@ pub struct CaseSpec {
     pub accept: Accept,
     /// compare verdict/output with other runs of the same (bytes, from, to)
     pub keyed: bool,
+    /// put a 4 KiB BufWriter between xt and the logging writer (large documents: fewer write events)
+    pub buffered: bool,
     /// when set, runs are compared across supplies of this text rather than of the same bytes (C07)
     pub key_text: Option<Rc<Vec<u8>>>,
     pub label: String,
@@ -303,6 +305,7 @@ impl<W: Write> Recorder<W> {
         writer.fault_at = case.wfault;
         let out_bytes = writer.bytes();
         let to = fmt_by_name(case.to).unwrap();
+        let writer: Box<dyn Write> = if case.buffered { Box::new(std::io::BufWriter::with_capacity(4096, writer)) } else { Box::new(writer) };
         let mut translator = xt::Translator::new(writer, to);
         let mut outcomes = vec![];
         for (ci, c) in case.calls.iter().enumerate() {
@@ -344,6 +347,7 @@ impl<W: Write> Recorder<W> {
         self.cases += 1;
         self.rec(json!({"ev": "case", "to": case.to, "label": case.label}));
         let mut total = 0usize; // bytes accepted
+        let mut ext_ok = true; // everything accepted so far agrees with the ideal output where both are defined
         for (ci, o) in outcomes.iter().enumerate() {
             let c = &case.calls[ci];
             let streaming = matches!(c.mode, Mode::Reader(_)) && c.true_fmt.map(|f| f != "toml").unwrap_or(false);
@@ -375,9 +379,14 @@ impl<W: Write> Recorder<W> {
                         self.rec(json!({"ev": "read", "req": req, "got": got, "d0": d0, "d1": delivered}));
                     }
                     IoEvent::Write { len, acc, total: t } => {
+                        // incremental comparison of the newly accepted bytes with the ideal output
+                        let prev = total;
                         total = *t;
-                        let overlap = total.min(ideal.len());
-                        let ext = output[..overlap] == ideal[..overlap];
+                        let (a, b) = (prev.min(ideal.len()), total.min(ideal.len()));
+                        if ext_ok && output[a..b] != ideal[a..b] {
+                            ext_ok = false;
+                        }
+                        let ext = ext_ok;
                         let frames = frame_ends.iter().filter(|fe| **fe <= total).count().min(frames_upto[ci]);
                         let last_frame_end = frame_ends.iter().copied().filter(|fe| *fe <= total).max().unwrap_or(0);
                         let over = total > ideal.len();
